@@ -5,6 +5,7 @@ ASSUMPTIONS = [
     "ways of failing exercised: ill-typed value at each argument position, missing index/key/element, unknown keyword, a user callback (transform, attribute transform, preparer, item preparer, default factory, __post_init__, __post_copy__) raising at its 1st..3rd invocation",
     "validators of validated(...)/bounded(...) attribute, element and key types (raising at their 1st..6th invocation within the operation, or no longer accepting a stored value) are exercised on the implementation only (harness/c04_validated.py): the instance model has no validated types",
     "KeyedList/KeyedSet-typed attributes are covered by C13/C14, not by this model",
+    "a transform handing back a DIFFERENT existing instance (the model's callbacks only allocate) together with attribute transforms is exercised on the implementation only (harness/c04_replacement.py), as are replacement instances + keywords on the classes outside the model",
     "open findings (KNOWN_FINDINGS.json): multi-keyword update/transform with _inplace=True",
 ]
 GENS = [
